@@ -27,6 +27,7 @@ from sa.pyfront import Program
 from sa.symex import Interp
 
 RULES = {
+    "R-C02-h": "every region an aggregate allocates is 64-bit int/float (or the fact array's own dtype): wide enough for any row count and for the negative intermediate values of marginal differencing",
     "R-C02-g": "every sub-cube task walks its dimensions: the task function has no early return (one taken only when NO dimension has an entry is harmless; one taken when SOME dimension has none skips the margins of the others)",
     "R-C02-f": "walk schema (imported from the C14 analysis): every non-empty uncommon and marginal intersection is presented exactly once, with no early exit from the entry loops",
     "R-C02-a": "every region of every index-cube aggregate is differenced exactly once, before it is trimmed, tested or returned",
@@ -192,6 +193,11 @@ def main(tier):
     rule_c(prog, rep)
     rule_d(prog, rep)
     rule_e(prog, rep)
+    CD = AT.Collector()
+    nd = AT.rule_region_dtypes(prog, CD, "R-C02-h", classes=("count",))
+    for rule, status, where, cons, detail, wit in CD.items:
+        rep.add(rule, where, cons, status, detail, True, wit)
+    rep.floor("R-C02-h", 4, nd)
     rule_g(prog, rep)
     # R-C02-f: the counts are laid down by the walk: its schema (every non-empty uncommon / marginal
     # intersection presented exactly once, no early exit) is decided by the C14 analysis and imported here
